@@ -633,7 +633,7 @@ func (w *World) Eval(n *Node) (interface{}, error) {
 // Names is the pool of reference names: own settings (top level and nested),
 // names that exist only in Env configs (e1, e2), only in resolvers (r1, r2),
 // in several layers (both, a, zz, o.x) or nowhere (zz when not drawn).
-var Names = []string{"a", "b", "c", "d", "o", "o.x", "o.y", "l", "l.0", "l.1", "zz", "e1", "e2", "both", "r1", "r2"}
+var Names = []string{"a", "b", "c", "d", "o", "o.x", "o.y", "l", "l.0", "l.1", "zz", "e1", "e2", "both", "r1", "r2", "p.x.y", "e2.p.q"}
 
 // OwnNames are names of the own tree only (reference graphs with many cycles).
 var OwnNames = []string{"a", "b", "c", "d", "o", "o.x", "o.y", "l", "l.0", "l.1", "a", "b"}
@@ -728,6 +728,13 @@ func (g *GCfg) GenLeaf(t *rapid.T, allowExpr bool) *Node {
 		}
 		return &Node{K: "float", F: 1.5}
 	}
+	if rapid.IntRange(0, 11).Draw(t, "litonly") == 0 {
+		// an expression without any reference: only the escapes matter ($$ is a literal $)
+		s := rapid.SampledFrom([]string{"5$", "$", "a$b", "$$", "x$y$", "$ {a}", "$a"}).Draw(t, "litexpr")
+		if !g.NoDollar {
+			return &Node{K: "expr", Expr: []Part{{Lit: s}}}
+		}
+	}
 	ps := g.GenParts(t, g.Depth, false)
 	hasVar := false
 	for _, p := range ps {
@@ -750,6 +757,10 @@ func (g *GCfg) GenRoot(t *rapid.T) *Node {
 			root.Put(k, g.GenLeaf(t, true))
 		}
 	}
+	if rapid.IntRange(0, 2).Draw(t, "hasp") == 0 {
+		// always a literal: a primitive at the first segment of the name p.x.y, which an Env config may hold
+		root.Put("p", g.GenLeaf(t, false))
+	}
 	if rapid.Bool().Draw(t, "haso") {
 		o := &Node{K: "obj"}
 		o.Put("x", g.GenLeaf(t, true))
@@ -769,6 +780,19 @@ func (g *GCfg) GenEnv(t *rapid.T) *Node {
 		if rapid.IntRange(0, 2).Draw(t, "envhas") == 0 {
 			e.Put(k, g.GenLeaf(t, false))
 		}
+	}
+	// names of three segments: the own tree (or an Env config added later) may hold a primitive at the first
+	// segment, which must not stop the search through the remaining layers
+	if rapid.IntRange(0, 2).Draw(t, "envdeep") == 0 {
+		k, a, b := "p", "x", "y"
+		if rapid.Bool().Draw(t, "envdeepkey") {
+			k, a, b = "e2", "p", "q"
+		}
+		inner := &Node{K: "obj"}
+		inner.Put(b, g.GenLeaf(t, false))
+		mid := &Node{K: "obj"}
+		mid.Put(a, inner)
+		e.Put(k, mid)
 	}
 	return e
 }
